@@ -59,6 +59,25 @@ func IsPrimitive(input any) bool {
 	}
 }
 
+// maxDecimalExponent bounds the exponent of a FHIR decimal element that is
+// taken into an evaluation.
+const maxDecimalExponent = 10000
+
+// decimalFromElement parses the value text of a FHIR decimal. FHIR allows an
+// exponent ("1e-999999999" is a valid decimal); aligning such a number with
+// any other one would materialise hundreds of millions of digits, so an
+// exponent beyond maxDecimalExponent is reported as not convertible.
+func decimalFromElement(text string) (decimal.Decimal, error) {
+	value, err := decimal.NewFromString(text)
+	if err != nil {
+		return decimal.Decimal{}, err
+	}
+	if exp := value.Exponent(); exp > maxDecimalExponent || exp < -maxDecimalExponent {
+		return decimal.Decimal{}, fmt.Errorf("%w: decimal exponent out of range: %s", ErrCantBeCast, text)
+	}
+	return value, nil
+}
+
 // From converts primitive FHIR types to System types.
 // Returns the input if already a System type, and an error
 // if the input is not convertible.
@@ -95,7 +114,7 @@ func From(input any) (Any, error) {
 	case *dtpb.PositiveInt:
 		return Integer(v.Value), nil
 	case *dtpb.Decimal:
-		value, err := decimal.NewFromString(v.Value)
+		value, err := decimalFromElement(v.Value)
 		if err != nil {
 			return nil, err
 		}
@@ -124,7 +143,7 @@ func From(input any) (Any, error) {
 		if v.GetValue() == nil {
 			return nil, fmt.Errorf("%w: Quantity without a value", ErrCantBeCast)
 		}
-		value, err := decimal.NewFromString(v.Value.Value)
+		value, err := decimalFromElement(v.Value.Value)
 		if err != nil {
 			return nil, err
 		}
